@@ -5529,8 +5529,8 @@ class Arc(Curve):
         if arc_required is None:
             sweep_limit = tau / 12.0
             arc_required = int(ceil(abs(self.sweep) / sweep_limit))
-        if arc_required == 0:
-            return
+        if arc_required == 0 or self.sweep == 0:
+            return  # an arc of zero extent draws nothing
         t_slice = self.sweep / float(arc_required)
 
         current_t = self.get_start_t()
@@ -5564,8 +5564,8 @@ class Arc(Curve):
         if arc_required is None:
             sweep_limit = tau / 12.0
             arc_required = int(ceil(abs(self.sweep) / sweep_limit))
-        if arc_required == 0:
-            return
+        if arc_required == 0 or self.sweep == 0:
+            return  # an arc of zero extent draws nothing
         t_slice = self.sweep / float(arc_required)
 
         theta = self.get_rotation()
